@@ -91,6 +91,8 @@ pub fn replay(j: &J) -> i32 {
         "C03" => {
             if j.get("kind").and_then(|k| k.as_str()) == Some("ladder") {
                 c03::ladder_case(&ctx, j.get("k").and_then(|k| k.as_i64()).unwrap_or(0) as usize, &mut rep)
+            } else if j.get("kind").and_then(|k| k.as_str()) == Some("pairs") {
+                c03::pairs_case(&ctx, j.get("k").and_then(|k| k.as_i64()).unwrap_or(0) as usize, &mut rep)
             } else {
                 c03::case(&ctx, shard, index, &mut rep)
             }
